@@ -162,3 +162,87 @@ def run_fnlocal(ctx):
     else:
         res.broken.append("From<&AnonymousFunction> for LocalVariable: cannot tell where the result type comes from (%s)" % verdict)
     return res
+
+
+# ---------------------------------------------------------------- R-CONCAT
+def run_concat(ctx):
+    res = RuleResult("R-CONCAT", "Type::concat (the union of two types) drops an operand only for structural reasons - `!`, `any`, equality, "
+                                 "set insertion - and never by asking `matches`: absorption by subtyping is an upper bound only in one "
+                                 "direction and makes the resulting type depend on the order in which members arrive")
+    lib = ctx.facts.lib
+    from ..owners import for_crate
+    own = for_crate(lib)
+    fid = "variable::r#type::Type::concat"
+    b = lib.body(fid)
+    if not res.anchor(b is not None, fid):
+        return res
+    key = "concat:no-matches"
+    hits = [(hb, c) for hb in own.members(fid) for c in hb.calls if c.callee.endswith("::matches") and "variable::" in c.callee]
+    inserts = [c for hb in own.members(fid) for c in hb.calls if c.callee.rsplit("::", 1)[-1] in ("insert", "extend") and "HashSet" in c.callee]
+    res.anchor(bool(inserts), "Type::concat inserts into the member set")
+    if hits:
+        hb, c = hits[0]
+        res.bad(key, "Type::concat decides what to keep by calling %s: a member dropped because something `matches` something is lost from the "
+                     "union unless the test runs in exactly the right direction, and the set of members then depends on arrival order "
+                     "(hash order)" % c.callee.rsplit("::", 2)[-2] + "::matches", hb.where(c.line))
+    else:
+        res.ok(key, b.where(), "members are only compared by equality / set insertion")
+    return res
+
+
+# ---------------------------------------------------------------- R-STDDELEGATE
+def run_stddelegate(ctx):
+    res = RuleResult("R-STDDELEGATE", "a standard-library helper that is the SimpleSL face of a std method of the same name (to_lowercase, trim, "
+                                      "replace, split, contains ...) answers through that method on every path: no fast path decides what "
+                                      "the answer is by a criterion of its own")
+    lib = ctx.facts.lib
+    n = 0
+    for fid, b in sorted(lib.bodies.items()):
+        if not fid.startswith("stdlib::") or "::inner::" not in fid or "{closure" in fid or "__" in fid.rsplit("::", 1)[-1]:
+            continue
+        name = fid.rsplit("::", 1)[-1]
+        same = [c for c in b.calls if c.callee.startswith(("std::", "core::", "alloc::")) and c.callee.rsplit("::", 1)[-1] == name]
+        if not same:
+            continue
+        n += 1
+        key = "stddelegate:%s" % fid
+        gates = {c.bb for c in same}
+        leaks = [r for r in b.return_blocks() if r in b.reachable(0, avoid=gates)]
+        if leaks:
+            res.bad(key, "%s can return without calling %s: on that path the result is decided by a shortcut that need not agree with the "
+                         "method docs/stdlib.md promises (e.g. Unicode titlecase letters are neither upper- nor lowercase but both case "
+                         "mappings change them)" % (fid, same[0].callee), b.where(b.blocks[leaks[0]]["term"].get("line")))
+        else:
+            res.ok(key, b.where(), "always through %s" % same[0].callee)
+    res.floor(n, 8, "delegating_helpers")
+    return res
+
+
+# ---------------------------------------------------------------- R-STRUCTPRINT
+def run_structprint(ctx):
+    res = RuleResult("R-STRUCTPRINT", "the printer of struct types writes every field: fields are never collected into a map or set keyed by "
+                                      "something derived from the name (entries can collide and vanish)")
+    lib = ctx.facts.lib
+    from ..owners import for_crate
+    own = for_crate(lib)
+    fid = "<variable::struct_type::StructType as std::fmt::Display>::fmt"
+    b = lib.body(fid)
+    if not res.anchor(b is not None, fid):
+        return res
+    key = "structprint:all-fields"
+    bad = []
+    for hb in own.members(fid):
+        for c in hb.calls:
+            dt = (c.term.get("dest_ty") or "")
+            last = c.callee.rsplit("::", 1)[-1]
+            if (last in ("collect", "from_iter") and re.search(r"\b(BTreeMap|HashMap|BTreeSet|HashSet)\b", dt)) or \
+                    (last in ("insert", "entry", "dedup", "dedup_by", "dedup_by_key", "retain") and re.search(r"(BTreeMap|HashMap|BTreeSet|HashSet|Vec)", c.callee)):
+                bad.append((hb, c, dt))
+    if bad:
+        hb, c, dt = bad[0]
+        res.bad(key, "the struct type printer passes the fields through %s (%s): two fields whose keys coincide there are printed as one, and "
+                     "the text parses back to a struct type with fewer fields" % (c.callee.rsplit("::", 2)[-2] + "::" + c.callee.rsplit("::", 1)[-1], dt[:80]),
+                hb.where(c.line))
+    else:
+        res.ok(key, b.where(), "fields are printed from the map's own iteration")
+    return res
